@@ -320,7 +320,7 @@ func checkArgType(
 	case definedArgT.IsAnyType() || argT.IsAnyType() || argT.IsUnknownType():
 		return nil
 
-	case definedArgT.IsMatchType(argT):
+	case !definedArgT.IsUnionType() && definedArgT.IsMatchType(argT):
 		return nil
 
 	case definedArgT.IsUnionType():
